@@ -10,6 +10,7 @@ package main
 import (
 	"encoding/json"
 	"fmt"
+	"math/big"
 	"os"
 	"sort"
 	"strings"
@@ -142,6 +143,7 @@ func main() {
 		rep.Sample(map[string]interface{}{"module": h.Module, "stakes_fx": h.Stakes, "window": h.Window, "blocks": len(h.Blocks), "first_blocks": firstN(h.Blocks, 6)})
 	}
 	lib.WriteCases("Cases_C07.v", []string{"model.M_EndBlock", "gen.Gen_EndBlock", "model.M_EndBlockCorr"}, "eb_case", items, "eb_mismatch")
+	lib.WriteCases("Cases_C07_pdiff.v", []string{"model.M_EndBlock", "model.M_OsetPhase", "model.M_OsetPhaseCorr"}, "pd_case", powerDiffCases(r, rep), "pd_mismatch")
 	lib.WriteCases("Cases_C07_full.v", []string{"model.M_EndBlock", "gen.Gen_EndBlock", "model.M_EndBlockCorr", "model.M_OsetPhase", "model.M_OsetPhaseCorr"}, "eb2_case", items2, "eb2_mismatch")
 	rep.Write()
 }
@@ -463,7 +465,7 @@ func runHistory(r *lib.Rand, hseed int64, module string, rep *lib.Report, items 
 }
 
 func genOp(r *lib.Rand, nOracles int) op {
-	kinds := []string{"bridge_call", "bridge_call", "inject_batch", "inject_batch", "confirm_oset", "confirm_oset", "confirm_batch", "confirm_bcall", "confirm_bcall", "add_delegate", "gov_proposal", "top_up", "top_up", "gov_vote", "gov_vote", "set_window", "gov_cancel", "gov_proposal_dep", "observe_oset", "observe_oset", "set_pct", "gov_proposal_panic"}
+	kinds := []string{"bridge_call", "bridge_call", "inject_batch", "inject_batch", "confirm_oset", "confirm_oset", "confirm_batch", "confirm_bcall", "confirm_bcall", "add_delegate", "add_delegate", "add_delegate", "confirm_oset", "confirm_batch", "gov_proposal", "top_up", "top_up", "gov_vote", "gov_vote", "set_window", "gov_cancel", "gov_proposal_dep", "observe_oset", "observe_oset", "set_pct", "gov_proposal_panic"}
 	return op{Kind: kinds[r.Intn(len(kinds))], A: r.Intn(nOracles + 6), B: uint64(r.Intn(8))}
 }
 
@@ -738,4 +740,83 @@ func short(s string) string {
 		return s[:200]
 	}
 	return s
+}
+
+// powerDiffCases: the float64 computation of isNeedOracleSetRequest on its own — the real BridgeValidators.PowerDiff,
+// fmt's "%.8f" and LegacyNewDecFromStr against the model's SpecFloat evaluation — on random member lists (members
+// joining, leaving, changing power) and on deltas placed next to the rounding boundaries (k + 1/2)·10^-8 of the quotient
+func powerDiffCases(r *lib.Rand, rep *lib.Report) []string {
+	n := 600
+	if lib.Tier() == "thorough" || os.Getenv("VERIF_MODE") == "search" {
+		n = 6000
+	}
+	const maxU32 = 4294967295
+	addr := func(i int) string { return fmt.Sprintf("0x%040x", i+1) }
+	var out []string
+	emit := func(kind string, cur, lat [][2]int64) {
+		var bc, bl crosschaintypes.BridgeValidators
+		for _, m := range cur {
+			bc = append(bc, crosschaintypes.BridgeValidator{Power: uint64(m[1]), ExternalAddress: addr(int(m[0]))})
+		}
+		for _, m := range lat {
+			bl = append(bl, crosschaintypes.BridgeValidator{Power: uint64(m[1]), ExternalAddress: addr(int(m[0]))})
+		}
+		txt := fmt.Sprintf("%.8f", bc.PowerDiff(bl))
+		d, err := sdkmath.LegacyNewDecFromStr(txt)
+		if err != nil {
+			rep.Fail(lib.Failure{Kind: "monitor", What: "isNeedOracleSetRequest would panic: the rendered power difference " + txt + " does not parse: " + err.Error(),
+				Sig: "C07:powerdiff:unparsable", Replay: map[string]interface{}{"cur": cur, "latest": lat}})
+			return
+		}
+		rep.Count("pdiff=" + kind)
+		rep.Case(fmt.Sprintf("pdiff/%v/%v", cur, lat), true)
+		out = append(out, fmt.Sprintf("mk_pd_case %s %s %s", pairs(cur), pairs(lat), d.BigInt().String()))
+	}
+	for i := 0; i < n; i++ {
+		switch {
+		case i%3 == 0:
+			// next to a rounding boundary: delta ≈ (k + 1/2)·10^-8 · MaxUint32, one member changing its power by delta
+			k := int64(r.Intn(100000000))
+			num := new(big.Int).Mul(big.NewInt(2*k+1), big.NewInt(maxU32))
+			delta := new(big.Int).Quo(num, big.NewInt(200000000)).Int64() + int64(r.Intn(5)) - 2
+			if delta < 0 {
+				delta = 0
+			}
+			if delta > maxU32 {
+				delta = maxU32
+			}
+			a := delta + int64(r.Intn(int(maxU32-delta)+1))
+			emit("boundary", [][2]int64{{0, a}}, [][2]int64{{0, a - delta}})
+		default:
+			mk := func() [][2]int64 {
+				var m [][2]int64
+				left := int64(maxU32)
+				for id := 0; id < 6; id++ {
+					if r.Chance(35) {
+						continue
+					}
+					p := int64(r.Intn(int(left/2) + 1))
+					if r.Chance(10) {
+						p = left
+					}
+					left -= p
+					m = append(m, [2]int64{int64(id), p})
+				}
+				return m
+			}
+			cur, lat := mk(), mk()
+			if r.Chance(30) { // small perturbation of the same set
+				lat = nil
+				for _, m := range cur {
+					d := int64(r.Intn(2000)) - 1000
+					if m[1]+d < 0 {
+						d = 0
+					}
+					lat = append(lat, [2]int64{m[0], m[1] + d})
+				}
+			}
+			emit("random", cur, lat)
+		}
+	}
+	return out
 }
